@@ -33,6 +33,8 @@ Theorem order_checks_as_modelled : extracted_order_checks = modelled_order_check
 Proof. exact order_checks_eq. Qed.
 Theorem defragmenter_as_modelled : extracted_defrag = modelled_defrag.
 Proof. exact defrag_eq. Qed.
+Theorem early_data_as_modelled : extracted_early_data = modelled_early_data.
+Proof. exact early_eq. Qed.
 
 (* Language inclusion, full: whatever trace makes the endpoint complete its handshake is a
    sequence the grammar allows -- every configuration, traces of any length. *)
@@ -47,11 +49,13 @@ Theorem former_deviation_traces_rejected :
   /\ completes modelled_gates ord13_cfg ord13_witness = false.
 Proof. exact former_rejected. Qed.
 
-(* Application data (empty or not, under any keys) offered at any handshake position aborts;
-   in particular none is delivered before the peer's Finished has been accepted. *)
+(* Application data (empty or not, under any keys) offered at any handshake position is never
+   delivered: the endpoint aborts, or -- a record that does not open, inside the early-data
+   window of a TLS 1.3 server -- drops it without any change of state. *)
 Theorem no_appdata_before_finished : forall c s e,
   In c all_cfgs -> handshaking s = true -> In e app_syms ->
-  is_abort (fst (step modelled_gates c s e)) = true.
+  let s' := fst (step modelled_gates c s e) in
+  is_abort s' = true \/ (ed s = true /\ s' = s).
 Proof. exact noapp. Qed.
 
 (* <= 1.2: every accepted trace contains exactly one ChangeCipherSpec, unprotected and with
@@ -64,7 +68,10 @@ Proof. exact order_full. Qed.
 
 Theorem finished_order_tls13 : forall c w,
   In c all_cfgs -> c_v13 c = true -> completes modelled_gates c w = true ->
-  matches (seqs [Star (alts [At AOther; At (ACcs E0); At (ACcs E1)]); At (AMsg E1 Fin MustAlign)]) w = true.
+  matches (seqs [Star (alts ([At AOther; At (ACcs E0); At (ACcs E1)] ++
+                             (* dropped undecryptable records of the early-data window *)
+                             (if c_early c then [At (AUndec E0); At (AUndec E1)] else [])));
+                 At (AMsg E1 Fin MustAlign)]) w = true.
 Proof.
   intros c w Hc Hv Hd. pose proof (order_full c w Hc Hd) as H.
   unfold ccs_fin_order in H. rewrite Hv in H. exact H.
@@ -87,13 +94,34 @@ Theorem renegotiation_refused : forall c s a,
 Proof. exact reneg. Qed.
 
 (* TLS 1.3, full (partial before 8fbaa01: a ChangeCipherSpec was ignored): while a handshake
-   message is partially received every record of another content type aborts. *)
+   message is partially received every record of another content type aborts (or, when it does
+   not even open inside the early-data window, is dropped unread). *)
 Theorem tls13_no_interleave : forall c s e p,
   In c all_cfgs -> c_v13 c = true ->
   handshaking s = true -> v13_at c (pc s) = true -> buf s = BPartial ->
   In p non_hs_payloads ->
-  is_abort (fst (step modelled_gates c s (e, p))) = true.
+  let s' := fst (step modelled_gates c s (e, p)) in
+  is_abort s' = true \/ (ed s = true /\ s' = s).
 Proof. exact interleave_full. Qed.
+
+(* The early-data window (RecordLayer.early_data_ok; TLS 1.3 server, every configuration with
+   or without early data offered, every automaton state in a handshake position, every event):
+   - outside the window a record that does not open under the read keys aborts;
+   - the window is open after an event only if it was open before (and the event was a dropped
+     record, a TLS 1.3 ChangeCipherSpec or buffered bytes -- see Model.C06_Check.chk_window) or
+     the event was the first ClientHello of a configuration that offered early data;
+   - the second ClientHello closes it.
+   Together with accepted_subset_allowed (whose grammar admits undecryptable records only between
+   the first ClientHello and the first record that opens / the second ClientHello) this is the
+   statement that wrong-epoch records are never skipped elsewhere. *)
+Theorem early_data_window_closes : forall c s e,
+  In c cfgs_server13 -> handshaking s = true ->
+  let s' := fst (step modelled_gates c s e) in
+  (undec_sym c s e = true -> ed s = false -> is_abort s' = true) /\
+  (ed s' = true -> is_abort s' = false ->
+     ed s = true \/ (c_early c = true /\ pc s = S_CH)) /\
+  (pc s = S13_CH2 -> (exists a, e = (E0, PH CH a)) -> ed s' = false \/ is_abort s' = true).
+Proof. exact window_facts. Qed.
 
 (* the hypotheses of the theorems above are satisfiable by non-trivial states *)
 Example ex_honest_tls12_client :
@@ -108,7 +136,15 @@ Example ex_honest_tls13_server :
   /\ In (sv13 KCert13 true true false) all_cfgs.
 Proof. split; [vm_compute; reflexivity|unfold all_cfgs; in_list]. Qed.
 
+Example ex_early_hrr_server :
+  completes modelled_gates (sv13e KPsk13 false true false)
+    [hs E0 CH; ccs0; (E2, PApp false); hs E0 CH; hs E1 Fin] = true
+  /\ completes modelled_gates (sv13e KPsk13 false true false)
+    [hs E0 CH; ccs0; hs E0 CH; (E2, PApp false); hs E1 Fin] = false
+  /\ In (sv13e KPsk13 false true false) cfgs_server13.
+Proof. split; [vm_compute; reflexivity|split; [vm_compute; reflexivity|unfold cfgs_server13; in_list]]. Qed.
+
 Example ex_partial_state :
-  let s := mk_st C13_CRCert BPartial false E1 in
+  let s := mk_st C13_CRCert BPartial false E1 false in
   handshaking s = true /\ v13_at (cl13 KCert13 false false) (pc s) = true.
 Proof. vm_compute. split; reflexivity. Qed.
